@@ -1,5 +1,6 @@
 //! Scenario sets for the properties decided on the endpoint world (C07, C08, C09, C10, C17, C18).
 
+use crate::lw::viol;
 use crate::eprops::*;
 use crate::ew::*;
 use crate::explore::*;
@@ -169,6 +170,7 @@ pub fn c07_parts(quick: bool) -> (Vec<EwSpec>, Vec<Scenario>) {
         let window = (if quick { 30 } else { 60 }).min(env.max_rounds - 2);
         custom.push(forger_scenario(&format!("C07.forged.{}", sname), cfg, script, env, window));
     }
+    custom.push(raw_handshake_scenario("C07", 200));
     // raw version mismatch
     {
         let cfg = EwCfg::new(1);
@@ -182,6 +184,64 @@ pub fn c07_parts(quick: bool) -> (Vec<EwSpec>, Vec<Scenario>) {
 }
 
 pub fn c07_specs(quick: bool) -> Vec<EwSpec> { c07_parts(quick).0 }
+
+
+/// A raw peer that conducts the handshake itself: a full-size SYN of some protocol version, then (reading the nonce the server issued
+/// to it from the wire of an identical first run; the world is deterministic) an ACK carrying that nonce, a neighbour of it, an extreme
+/// value, or none. The server application greets whoever it is told has connected. Judged: a SYN of a foreign version is refused (no
+/// SYN-ACK, no Connect); Connect for the raw address only after the exact nonce came back; the byte ledger of C18.
+pub fn raw_handshake_scenario(tag: &str, greet: usize) -> Scenario {
+    let name = format!("{}.raw-handshake|greet{}|versions3|he2|acks7|waits2", tag, greet);
+    let run = move |ch: &mut Chooser| -> ExecResult {
+        let version = [uflow::PROTOCOL_VERSION, uflow::PROTOCOL_VERSION.wrapping_add(1), 0][ch.free(3)];
+        let he = ch.free(2) == 1;
+        let variant = ch.free(7);
+        let wait = [1usize, 5][ch.free(2)];
+        let mut cfg = EwCfg::new(1); cfg.handshake_errors = he; cfg.greet = greet;
+        let syn = { let mut b = fw(Frame::HandshakeSynFrame(HandshakeSynFrame { version, nonce: 0x0BAD_CAFE, max_receive_rate: 1_000_000, max_packet_size: 1000, max_receive_alloc: 1_000_000 })); b.resize(1472, 0); b };
+        // the padding of a connection request is part of the datagram, not of the frame: fw() of a SYN already yields 1472 bytes when the library pads; resize is a no-op then
+        let mut script: Vec<EwOp> = vec![at(2, Act::Raw(0, syn.clone()))];
+        let mut env = EwEnv::basic(0, 2 + wait + 60);
+        env.fates = DF_NONE; env.deltas = &[500]; env.fair_delta = 500; env.stop_when_done = false;
+        let mut c0 = Chooser::new(vec![], vec![]);
+        let first = run_ew(&cfg, &script, &env, &mut c0);
+        let issued: Option<u32> = first.wire.iter().filter(|d| d.src == saddr() && d.dst == raddr(0)).find_map(|d| if let Some(Frame::HandshakeSynAckFrame(s)) = &d.frame { Some(s.nonce) } else { None });
+        let ack_nonce: Option<u32> = match (variant, issued) {
+            (0, _) => None,
+            (1, Some(n)) => Some(n),
+            (2, Some(n)) => Some(n.wrapping_add(1)),
+            (3, Some(n)) => Some(n.wrapping_sub(1)),
+            (4, _) => Some(0),
+            (5, _) => Some(0xFFFF_FFFF),
+            (6, _) => Some(0x0BAD_CAFE),
+            _ => None,
+        };
+        if let Some(a) = ack_nonce { script.push(at(2 + wait, Act::Raw(0, fw(Frame::HandshakeAckFrame(HandshakeAckFrame { nonce_ack: a }))))); }
+        let mut c1 = Chooser::new(vec![], vec![]);
+        let tr = run_ew(&cfg, &script, &env, &mut c1);
+        if crate::lwprops::verbose() { print_ew(&cfg, &tr); }
+        let n = cfg.clients.len();
+        let mut violations = Vec::new();
+        let what = format!("raw peer: SYN version {} (own {}), handshake errors {}, ACK {:x?} {} rounds later (issued nonce {:x?})", version, uflow::PROTOCOL_VERSION, he, ack_nonce, wait, issued);
+        let synacks = tr.wire.iter().filter(|d| d.src == saddr() && d.dst == raddr(0) && matches!(&d.frame, Some(Frame::HandshakeSynAckFrame(_)))).count();
+        let connects = tr.sev[n].iter().filter(|e| e.ev == Ev::Connect).count();
+        if version != uflow::PROTOCOL_VERSION {
+            if synacks > 0 { violations.push(viol("C07.version", "C07.version:syn-ack-for-foreign-version".into(), format!("{}: the server answered a connection request of a foreign protocol version with {} SYN-ACK(s)", what, synacks))); }
+            if connects > 0 { violations.push(viol("C07.version", "C07.version:connect-for-foreign-version".into(), format!("{}: the server reported Connect for a peer of a foreign protocol version", what))); }
+            let errs = tr.wire.iter().filter(|d| d.src == saddr() && d.dst == raddr(0)).filter(|d| matches!(&d.frame, Some(Frame::HandshakeErrorFrame(e)) if e.error == HandshakeErrorType::Version)).count();
+            if he && errs == 0 { violations.push(viol("C07.version", "C07.version:no-error-reply".into(), format!("{}: no Version error was sent although handshake errors are enabled", what))); }
+        } else {
+            let exact = ack_nonce.is_some() && ack_nonce == issued;
+            if connects > 0 && !exact { violations.push(viol("C07.server-connect", "C07.server-connect:raw".into(), format!("{}: the server reported Connect for an address that never returned the nonce it was sent", what))); }
+            if exact && connects != 1 { violations.push(viol("C07.server-connect", "C07.server-connect:raw-honest".into(), format!("{}: the nonce came back but the server reported {} Connect events", what, connects))); }
+        }
+        violations.extend(oracle_c18(&cfg, &tr, 1));
+        let replies = tr.wire.iter().filter(|d| d.src == saddr() && d.dst == raddr(0)).count() as u64;
+        ExecResult { violations, panic: None, outcome: crate::explore::hash_bytes(ew_outcome(&tr) ^ replies << 20 ^ (connects as u64) << 40, what.as_bytes()), states: ew_states(&tr), transitions: tr.obs.len() as u64, witnesses: 0,
+                     sample: if variant == 1 && wait == 1 { Some(format!("{} -> {} SYN-ACKs, {} Connect, {} datagrams to the raw address", what, synacks, connects, replies)) } else { None } }
+    };
+    Scenario { name, d: 0, run: Box::new(run) }
+}
 
 pub fn c07(quick: bool) -> PropRun {
     let (own, custom) = c07_parts(quick);
@@ -212,6 +272,16 @@ fn forged_alphabet() -> Vec<(&'static str, bool, Vec<u8>)> {
         ("forged error ServerFull, wrong nonce", true, err(0, HandshakeErrorType::ServerFull)),
         ("forged SYN to client", true, syn(uflow::PROTOCOL_VERSION, 0x1111_1111)),
         ("forged ACK to client", true, ack(0x1111_1111)),
+        // neighbours of the right nonces and extreme values; degenerate limits in a frame that does not carry the nonce
+        ("spoofed ACK, server nonce + 1", false, ack(0x2222_2223)),
+        ("spoofed ACK, server nonce - 1", false, ack(0x2222_2221)),
+        ("spoofed ACK, nonce 2^32-1", false, ack(0xFFFF_FFFF)),
+        ("forged SYN-ACK, client nonce + 1", true, synack(0x1111_1112, 0x8888_8888)),
+        ("forged SYN-ACK, nonce_ack 2^32-1", true, synack(0xFFFF_FFFF, 0x8888_8888)),
+        ("forged SYN-ACK, wrong nonce_ack, receive rate 0", true, fw(Frame::HandshakeSynAckFrame(HandshakeSynAckFrame { nonce_ack: 0x9999_9999, nonce: 0x8888_8888, max_receive_rate: 0, max_packet_size: 1000, max_receive_alloc: 1_000_000 }))),
+        ("forged SYN-ACK, wrong nonce_ack, receive alloc 0", true, fw(Frame::HandshakeSynAckFrame(HandshakeSynAckFrame { nonce_ack: 0x9999_9999, nonce: 0x8888_8888, max_receive_rate: 1_000_000, max_packet_size: 0, max_receive_alloc: 0 }))),
+        ("forged error ServerFull, client nonce + 1", true, err(0x1111_1112, HandshakeErrorType::ServerFull)),
+        ("forged error Version, nonce 2^32-1", true, err(0xFFFF_FFFF, HandshakeErrorType::Version)),
     ]
 }
 
@@ -418,6 +488,7 @@ pub fn c18(quick: bool) -> PropRun {
             scs.push(Scenario { name, d: 0, run: Box::new(run) });
         }
     }
+    scs.push(raw_handshake_scenario("C18", 16_000));
     // one or three valid connection requests from an address that never answers, against servers stepping slowly (the resend timers are
     // then handled late) and servers configured with long active time-outs, watched for seven minutes
     {
